@@ -15,7 +15,14 @@ struct { XMLCh a[NT + 1]; } ERRTEXT, ORG;
 struct { XMLCh a[NR + 1]; } T1, T2, T3, T4;
 static XMLCh* ST_replicate(const XMLCh *s) { XMLSize_t k = 0; for (; k < NT + 1; k++) { ORG.a[k] = s[k]; if (!s[k]) break; } return ORG.a; }
 
+/* leaf helpers a refactoring of the function is likely to call: extracted for real so that such a change is judged, not undecided */
+/*@extract src/xercesc/util/XMLString.hpp XMLString::stringLen
+params const XMLCh* const src
+static
+@*/
+
 /*@extract src/xercesc/util/XMLString.cpp XMLString::replaceTokens
+call stringLen => XMLString_stringLen
 sub XMLCh\* orgText = replicate\(errText, manager\); => XMLCh* orgText = ST_replicate(errText);
 sub ArrayJanitor<XMLCh> janText\(orgText, manager\); =>
 @*/
